@@ -362,7 +362,9 @@ class SingleSweepPart(Part):
                 if v.sig in sigs2:
                     v.props.discard("C16")
                 else:
-                    v.props = set(["C16"])
+                    # specific to the multiprocessing code paths: C16, and still a violation of the
+                    # fault / crash property it was found under (those are stated for both modes)
+                    v.props = set(["C16"]) | (v.props & set(["C13", "C10", "C08", "C09"]))
         return res
 
     def key(self, prog, res):
@@ -400,7 +402,9 @@ class SingleRandomPart(SingleSweepPart):
     def gen(self, seed, tier):
         import random
         prog = gen.gen_single_random(seed, self.engine.lower(), tier)
-        if getattr(self, "mp", False):
+        if getattr(self, "mp", False) == "mixed":
+            prog["knobs"]["mp"] = random.Random("mpmix:%d" % seed).random() < 0.3
+        elif getattr(self, "mp", False):
             prog["knobs"]["mp"] = True
         rng = random.Random("plan:%d" % seed)
         if self.engine == "FAULT":
